@@ -713,3 +713,37 @@ mod serde {
         }
     }
 }
+
+/// Read-only view of the raw representation, for external conformance checking.
+///
+/// Only compiled with `--cfg priority_queue_verif`. It performs no unchecked access, so it
+/// can also be taken from a queue that a caught panic left in an inconsistent state.
+#[cfg(priority_queue_verif)]
+pub struct VerifSnapshot<'a, I, P> {
+    /// heap position -> slot index
+    pub heap: Vec<usize>,
+    /// slot index -> heap position
+    pub qp: Vec<usize>,
+    /// the size counter
+    pub size: usize,
+    /// number of entries in the map
+    pub map_len: usize,
+    /// slot index -> stored (item, priority)
+    pub entries: Vec<(&'a I, &'a P)>,
+    /// capacities of (map, heap, qp)
+    pub caps: (usize, usize, usize),
+}
+
+#[cfg(priority_queue_verif)]
+impl<I, P, H> Store<I, P, H> {
+    pub(crate) fn verif_snapshot(&self) -> VerifSnapshot<'_, I, P> {
+        VerifSnapshot {
+            heap: self.heap.iter().map(|i| i.0).collect(),
+            qp: self.qp.iter().map(|p| p.0).collect(),
+            size: self.size,
+            map_len: self.map.len(),
+            entries: self.map.iter().collect(),
+            caps: (self.map.capacity(), self.heap.capacity(), self.qp.capacity()),
+        }
+    }
+}
